@@ -263,6 +263,10 @@ pub fn ip_allow<'a>(data: &'a mut extensions::PresentData<'a>) -> RetFut<'a, ()>
             let error = default_error(StatusCode::NOT_FOUND, Some(data.host), None).await;
             *data.response = error.map(Into::into);
         }
+        // a later `cache` extension must not be able to put this in the server cache
+        data.response
+            .headers_mut()
+            .insert("kvarn-cache-control", HeaderValue::from_static("none"));
     })
 }
 
